@@ -27,9 +27,22 @@ def _exp(reply):
     return "%d.%d" % (reply[0], reply[1])
 
 
-def _scenario(sid, beh):
+def _grants(st):
+    """(p, c) -> lease end granted by the parents, from the ghost variable grantC."""
+    out = {}
+    g = st["grantC"]
+    rows = g if isinstance(g, list) else [g[k] for k in sorted(g)]
+    for p, row in enumerate(rows, 1):
+        cells = row if isinstance(row, list) else [row[k] for k in sorted(row)]
+        for c, v in enumerate(cells, 1):
+            out[(p, c)] = v
+    return out
+
+
+def _scenario(sid, beh, horizon=6):
     cfg = beh[0][1]["cfg"]
     steps, i, changes, q_before, q_after = [], 0, [], 0, 0
+    probes = []
     for k in range(1, len(beh)):
         label, st = beh[k]
         name = label.split("(")[0].strip()
@@ -38,6 +51,12 @@ def _scenario(sid, beh):
             continue
         at = t * 1000 + 60 + 45 * i
         i += 1
+        if name in ("Query", "Hot"):
+            # boundary probes from the model state: this query observed a referral whose lease ends at E
+            g0, g1 = _grants(beh[k - 1][1]), _grants(st)
+            for key, e in g1.items():
+                if e != g0.get(key) and t < e <= horizon:
+                    probes.append((at, e * 1000 + (at - t * 1000) + 150))
         if name == "Query":
             steps.append({"at": at, "op": "query", "exp": _exp(st["reply"])})
         elif name == "Hot":
@@ -52,6 +71,18 @@ def _scenario(sid, beh):
                 q_after += 1
             else:
                 q_before += 1
+    # a probe is useful only if the parents changed something between the observation and the lease end
+    added = False
+    for seen_at, at in probes:
+        if any(seen_at < x["at"] < at and x["op"] not in ("query", "hot") for x in steps):
+            steps.append({"at": at, "op": "query", "exp": "any", "probe": True})
+            added = True
+    if added:
+        steps.sort(key=lambda x: x["at"])
+        first = min(k for k, x in enumerate(steps) if x.get("probe"))
+        for x in steps[first:]:
+            if x["op"] == "query":
+                x["exp"] = "any"   # the extra query may re-observe a referral: later predictions no longer apply
     sc = {"id": sid, "signed": bool(cfg["signed"]), "pNS": cfg["pNS"], "pDS": cfg["pDS"], "cNS": cfg["cNS"], "cDS": cfg["cDS"],
           "childTTL": cfg["childTTL"], "child": cfg["child"], "deep": bool(cfg["deep"]), "valDelayMs": cfg["valDelay"], "steps": steps}
     return sc, changes, q_before, q_after
